@@ -61,6 +61,8 @@ Mon ==
   /\ Chk(Last.o => OmitsStrictP(Last.listed), "Omits",
          IF KF_FailedAfterApprove THEN "FailedAfterApprove" ELSE "")
   /\ Chk(Last.o => Last.listed = Listed, "DRIFT", "listed")
+  \* devices that were never approved (a dual-stack, an IPv4-only and an IPv6-only bystander) are always listed
+  /\ Chk(Last.o => Last.others, "NeverForgets", "")
   /\ Chk(Last.st.bad = st.bad /\ (~st.bad => Last.st = st), "DRIFT", "status")
 
 Accepted == TLCGet("stats").diameter = Len(Trace)
